@@ -490,7 +490,24 @@ impl StakeKeeper {
             .unwrap();
 
         let remaining_percentage = Decimal::one() - percentage;
-        validator_info.stake = validator_info.stake.mul_floor(remaining_percentage);
+
+        // scale the stake of all stakers; the validator's total stake is the sum of them,
+        // so it never drifts below what the stakers still hold
+        let mut total_stake = Decimal::zero();
+        for delegator in validator_info.stakers.iter() {
+            let stake = STAKES.update(
+                staking_storage,
+                (delegator, validator),
+                |stake| -> AnyResult<_> {
+                    let mut stake = stake.expect("all stakers in validator_info should exist");
+                    stake.stake *= remaining_percentage;
+
+                    Ok(stake)
+                },
+            )?;
+            total_stake += stake.stake;
+        }
+        validator_info.stake = Uint128::new(1).mul_floor(total_stake);
 
         // if the stake is completely gone, we clear all stakers and reinitialize the validator
         if validator_info.stake.is_zero() {
@@ -499,20 +516,6 @@ impl StakeKeeper {
                 STAKES.remove(staking_storage, (delegator, validator));
             }
             validator_info.stakers.clear();
-        } else {
-            // otherwise we update all stakers
-            for delegator in validator_info.stakers.iter() {
-                STAKES.update(
-                    staking_storage,
-                    (delegator, validator),
-                    |stake| -> AnyResult<_> {
-                        let mut stake = stake.expect("all stakers in validator_info should exist");
-                        stake.stake *= remaining_percentage;
-
-                        Ok(stake)
-                    },
-                )?;
-            }
         }
         // go through the queue to slash all pending unbondings
         let mut unbonding_queue = UNBONDING_QUEUE
